@@ -393,6 +393,18 @@ Theorem monitor_sound_limit : forall c n sc,
 Proof. exact ProofsCheck.prop_ok_lim_sound. Qed.
 Print Assumptions monitor_sound_limit.
 
+(* ... and for TaskRunner cases (tasks inside their body) and Pool cases (resources created and not
+   destroyed, by the executor's own events inside create() / destroy()). *)
+Theorem monitor_sound_taskrunner_pool : forall c,
+  Check.prop_ok1 c = true ->
+  match Check.ckind c with
+  | Check.KTR n _ => forall p q, Check.clog c = p ++ q -> (ProofsCheck.inside_after p <= Z.of_nat n)%Z
+  | Check.KPL n _ _ => forall p q, Check.clog c = p ++ q -> (ProofsCheck.live_after p <= Z.of_nat n)%Z
+  | _ => True
+  end.
+Proof. exact ProofsCheck.prop_ok_tr_pl_sound. Qed.
+Print Assumptions monitor_sound_taskrunner_pool.
+
 (* ------------------------------------------------------------------ *)
 (* non-vacuity *)
 
